@@ -119,10 +119,14 @@ def scenarios(prog: Program, with_composites: bool = True, iterations: int = 1) 
 
 # ----------------------------------------------------------------------------- parallel runner
 def _spec_to_tuple(s):
+    if isinstance(s, int):
+        return s
     return (s.cls, None if s.children is None else [(_spec_to_tuple(c) if not isinstance(c, int) else c) for c in s.children], s.name, s.criteria)
 
 
 def _tuple_to_spec(t):
+    if isinstance(t, int):
+        return t
     cls, children, name, crit = t
     return MoveSpec(cls, None if children is None else [(_tuple_to_spec(c) if not isinstance(c, int) else c) for c in children], name, crit)
 
@@ -135,6 +139,7 @@ def _worker(args):
     mod = importlib.import_module(rule_mod)
     sc = Scenario(prog, prog.cls(driver_name), [_tuple_to_spec(t) for t in table], iterations)
     findings: list[dict] = []
+    seen_f: set = set()
     oks: dict[tuple, int] = {}
 
     def on_trial(rec):
@@ -143,7 +148,9 @@ def _worker(args):
                 k = (f["rule"], f["construct"])
                 oks[k] = oks.get(k, 0) + 1
             else:
-                if len(findings) < 400:
+                k = (f["rule"], f["construct"], f.get("stmt", ""))
+                if k not in seen_f:
+                    seen_f.add(k)
                     findings.append(f)
 
     try:
@@ -152,7 +159,7 @@ def _worker(args):
     except AnalysisError as exc:
         stats = {"paths": 0, "trials": 0, "pruned": 0}
         err = str(exc)
-    label = f"{driver_name}×{'+'.join(s.label() for s in sc.table)}"
+    label = f"{driver_name}×{'+'.join(s.label() if not isinstance(s, int) else f'same#{s}' for s in sc.table)}"
     return label, stats, findings, [(k[0], k[1], n) for k, n in oks.items()], err
 
 
